@@ -36,6 +36,135 @@ BUFFER_OWNERS = {
 }
 
 
+def limited_write_paths(repo: Repo):
+    """All paths of ``LimitedStringIO.write(self, s)`` with the byte counter tracked symbolically.
+
+    Symbols: ``S0`` the counter on entry, ``N`` the UTF-8 length of ``s`` (``len(s.encode("utf-8"))``,
+    ``len(s.encode())``, or ``len(s)`` on a path where ``s.isascii()`` holds), ``L`` the limit.
+    Locals stand for their definitions, private helpers are inlined.  Returns
+    ``(function, s parameter, [path])`` where a path is a dict with ``kind`` ("write" = reaches
+    ``super().write``, "raise", "return"), ``conds`` (set of condition strings such as ``S0+N>L``,
+    ``!(S0+N>L)``, ``s``, ``!s``), ``size`` (the counter at that point) and ``node``."""
+    from ..normalize import nfunc
+
+    w0 = repo.own_method("liquid.output.LimitedStringIO", "write")
+    w = nfunc(repo, w0)
+    a = w.node.args
+    pos = [x.arg for x in a.posonlyargs + a.args]
+    sparam = pos[1] if len(pos) > 1 else "_"
+
+    def add(x: str, y: str) -> str:
+        return "+".join(sorted(x.split("+") + y.split("+")))
+
+    def sym(e: ast.AST, env: dict, conds: set) -> str:
+        if isinstance(e, ast.Name):
+            if e.id == sparam:
+                return "s"
+            return env.get(e.id, e.id)
+        if attr_chain(e) == ["self", "size"]:
+            return env["@size"]
+        if attr_chain(e) == ["self", "limit"]:
+            return "L"
+        if isinstance(e, ast.BinOp) and isinstance(e.op, ast.Add):
+            return add(sym(e.left, env, conds), sym(e.right, env, conds))
+        if isinstance(e, ast.Call) and is_name(e.func, "len") and len(e.args) == 1:
+            x = e.args[0]
+            if isinstance(x, ast.Call) and isinstance(x.func, ast.Attribute) and x.func.attr == "encode" and is_name(call_recv(x), sparam) and not x.keywords and (not x.args or (isinstance(x.args[0], ast.Constant) and str(x.args[0].value).lower().replace("-", "") == "utf8")):
+                return "N"
+            if is_name(x, sparam) and "ascii" in conds:
+                return "N"  # for ASCII text the character count is the UTF-8 byte count
+        if isinstance(e, ast.Constant):
+            return repr(e.value)
+        return "?" + text(e)
+
+    def cond(t: ast.AST, env: dict, conds: set) -> str:
+        if isinstance(t, ast.UnaryOp) and isinstance(t.op, ast.Not):
+            c = cond(t.operand, env, conds)
+            return c[1:] if c.startswith("!") and not c.startswith("!(") else f"!{c}" if not c.startswith("!(") else c[2:-1]
+        if isinstance(t, ast.Compare) and len(t.ops) == 1:
+            l, r = sym(t.left, env, conds), sym(t.comparators[0], env, conds)
+            op = t.ops[0]
+            if isinstance(op, ast.Gt):
+                return f"{l}>{r}"
+            if isinstance(op, ast.LtE):
+                return f"!({l}>{r})"
+            if isinstance(op, ast.Lt):
+                return f"{r}>{l}"
+            if isinstance(op, ast.GtE):
+                return f"!({r}>{l})"
+            return f"{l} {type(op).__name__} {r}"
+        if isinstance(t, ast.Call) and callee_name(t) == "isascii" and is_name(call_recv(t), sparam):
+            return "ascii"
+        if isinstance(t, ast.Name):
+            return sym(t, env, conds)
+        return "?" + text(t)
+
+    def neg(c: str) -> str:
+        if c.startswith("!(") and c.endswith(")"):
+            return c[2:-1]
+        if c.startswith("!"):
+            return c[1:]
+        return f"!({c})" if (">" in c or " " in c) else f"!{c}"
+
+    paths: list[dict] = []
+
+    def scan_expr(e: ast.AST, env: dict, conds: set) -> None:
+        for c in ast.walk(e):
+            if isinstance(c, ast.Call) and callee_name(c) == "write" and isinstance(call_recv(c), ast.Call) and callee_name(call_recv(c)) == "super":
+                paths.append({"kind": "write", "conds": set(conds), "size": env["@size"], "node": c, "arg": c.args[0] if c.args else None})
+
+    def block(body, env: dict, conds: set) -> list:
+        states = [(env, conds)]
+        for st in body:
+            nxt = []
+            for e_, c_ in states:
+                nxt += stmt(st, dict(e_), set(c_))
+            states = nxt
+            if not states:
+                break
+        return states
+
+    def stmt(st, env, conds) -> list:
+        if isinstance(st, ast.Return):
+            if st.value is not None:
+                n0 = len(paths)
+                scan_expr(st.value, env, conds)
+                if len(paths) == n0:
+                    paths.append({"kind": "return", "conds": set(conds), "size": env["@size"], "node": st})
+            return []
+        if isinstance(st, ast.Raise):
+            paths.append({"kind": "raise", "conds": set(conds), "size": env["@size"], "node": st, "exc": text(st.exc.func if isinstance(st.exc, ast.Call) else st.exc).split(".")[-1] if st.exc is not None else ""})
+            return []
+        if isinstance(st, ast.If):
+            tests = st.test.values if isinstance(st.test, ast.BoolOp) and isinstance(st.test.op, ast.And) else [st.test]
+            cs = [cond(t, env, conds) for t in tests]
+            out = block(st.body, env, conds | set(cs))
+            neg_c = {neg(cs[0])} if len(cs) == 1 else {"!(" + "&".join(cs) + ")"}
+            out += block(st.orelse, env, conds | neg_c) if st.orelse else [(env, conds | neg_c)]
+            return out
+        if isinstance(st, ast.AugAssign) and isinstance(st.op, ast.Add) and attr_chain(st.target) == ["self", "size"]:
+            env["@size"] = add(env["@size"], sym(st.value, env, conds))
+            return [(env, conds)]
+        if isinstance(st, ast.Assign) and len(st.targets) == 1:
+            scan_expr(st.value, env, conds)
+            if attr_chain(st.targets[0]) == ["self", "size"]:
+                env["@size"] = sym(st.value, env, conds)
+            elif isinstance(st.targets[0], ast.Name):
+                env[st.targets[0].id] = sym(st.value, env, conds)
+            return [(env, conds)]
+        if isinstance(st, ast.Expr):
+            scan_expr(st.value, env, conds)
+            return [(env, conds)]
+        if isinstance(st, (ast.For, ast.While, ast.Try, ast.With)):
+            paths.append({"kind": "opaque", "conds": set(conds), "size": env["@size"], "node": st})
+            return []
+        return [(env, conds)]
+
+    for env_, c_ in block(w.node.body, {"@size": "S0"}, set()):
+        paths.append({"kind": "return", "conds": set(c_), "size": env_["@size"], "node": w.node})
+    return w, sparam, paths
+
+
 def run(repo: Repo) -> Result:
     res = Result(PID)
     res.rules = ["C07-COUNT", "C07-BUFFER", "C07-TOP", "C07-LOCALS"]
@@ -43,75 +172,35 @@ def run(repo: Repo) -> Result:
     res.assumptions = ["sys.getsizeof is the property's own measure of namespace size"]
 
     # ---- C07-COUNT -----------------------------------------------------------
-    w = repo.own_method("liquid.output.LimitedStringIO", "write")
+    # symbolic run of LimitedStringIO.write over all paths (counter S0, UTF-8 length N, limit L):
+    # a non-empty string reaches super().write only with the counter at S0+N and `S0+N > L`
+    # known false; what is written is the counted string
+    w, sparam, wpaths = limited_write_paths(repo)
     res.ob(w.qual, 3)
-    a = w.node.args
-    pos = [x.arg for x in a.posonlyargs + a.args]
-    if len(pos) != 2:
+    if len(w.params()) != 2:
         res.add("C07-COUNT", w.qual, "signature", "write(self, s) expected", w.file, w.line)
-    sparam = pos[1] if len(pos) > 1 else "_"
-    # size increment
-    inc_ok = False
-    from ..guards import conditions as _condsW
-
-    ascii_only = {id(st0) for st0, cs0 in _condsW(w.node) if any(isinstance(c0, ast.Call) and callee_name(c0) == "isascii" and is_name(call_recv(c0), sparam) for c0 in cs0)}
-    for st in walk_no_nested(w.node):
-        if isinstance(st, ast.AugAssign) and isinstance(st.op, ast.Add) and attr_chain(st.target) == ["self", "size"]:
-            v = st.value
-            if id(st) in ascii_only and isinstance(v, ast.Call) and is_name(v.func, "len") and len(v.args) == 1 and is_name(v.args[0], sparam):
-                continue  # under `s.isascii()` the character count IS the UTF-8 byte count
-            if (
-                isinstance(v, ast.Call)
-                and is_name(v.func, "len")
-                and len(v.args) == 1
-                and isinstance(v.args[0], ast.Call)
-                and isinstance(v.args[0].func, ast.Attribute)
-                and v.args[0].func.attr == "encode"
-                and is_name(call_recv(v.args[0]), sparam)
-                and (
-                    (v.args[0].args and isinstance(v.args[0].args[0], ast.Constant) and str(v.args[0].args[0].value).lower().replace("-", "") == "utf8")
-                    or not v.args[0].args and not v.args[0].keywords
-                )
-            ):
-                inc_ok = True
-            else:
-                res.add("C07-COUNT", w.qual, f"increment:{text(v)[:40]}", f"size must grow by len({sparam}.encode('utf-8')), found `{text(v)}`", w.file, st.lineno)
-    if not inc_ok:
-        res.add("C07-COUNT", w.qual, "no-utf8-increment", "LimitedStringIO.write does not count the UTF-8 bytes of its argument", w.file, w.line)
-
-    # flow: counted & checked before super().write on every path where s is non-empty
-    facts_at_write = []
-
-    def gen(st):
-        out = set()
-        if isinstance(st, ast.AugAssign) and attr_chain(st.target) == ["self", "size"]:
-            out.add("counted")
-        return out
-
-    def gen_cond(test, truth):
-        out = set()
-        if isinstance(test, ast.Compare) and attr_chain(test.left) == ["self", "size"] and isinstance(test.ops[0], ast.Gt) and not truth:
-            out.update(("checked", "ok"))
-        if is_name(test, sparam) and not truth:
-            out.add("ok")  # nothing to write: zero bytes
-        return out
-
-    def visit(node, st):
-        if isinstance(node, ast.Compare) and attr_chain(node.left) == ["self", "size"] and "counted" not in st:
-            res.add("C07-COUNT", w.qual, "check-before-count", "the size > limit test runs before the bytes of this write were added", w.file, node.lineno)
-        for c in node_calls(node):
-            if callee_name(c) == "write" and isinstance(call_recv(c), ast.Call) and callee_name(call_recv(c)) == "super":
-                facts_at_write.append((c, st))
-
-    MustFlow(gen=gen, gen_cond=gen_cond, visit=visit).run(w.node)
-    if not facts_at_write:
+    writes = [p_ for p_ in wpaths if p_["kind"] == "write"]
+    if not writes:
         res.add("C07-COUNT", w.qual, "no-super-write", "LimitedStringIO.write never writes", w.file, w.line)
-    for c, st in facts_at_write:
-        if "ok" not in st:
-            res.add("C07-COUNT", w.qual, "write-before-check", f"super().write is reachable without the bytes having been counted and checked (facts: {sorted(st)})", w.file, c.lineno)
-        wa = c.args[0] if c.args else None
-        if not is_name(wa, sparam):
-            res.add("C07-COUNT", w.qual, "writes-other", f"writes `{text(wa) if wa is not None else None}`, not the counted string", w.file, c.lineno)
+    if any(p_["kind"] == "opaque" for p_ in wpaths):
+        raise AnchorMissing("LimitedStringIO.write contains a loop / try / with: re-derive C07-COUNT")
+    counted_somewhere = False
+    for p_ in writes:
+        if not is_name(p_["arg"], sparam):
+            res.add("C07-COUNT", w.qual, "writes-other", f"writes `{text(p_['arg']) if p_['arg'] is not None else None}`, not the counted string", w.file, p_["node"].lineno)
+        if "!s" in p_["conds"]:
+            continue  # the empty string: zero bytes
+        if p_["size"] == "N+S0":
+            counted_somewhere = True
+        if p_["size"] != "N+S0":
+            if p_["size"] == "S0":
+                res.add("C07-COUNT", w.qual, "no-utf8-increment", "LimitedStringIO.write does not count the UTF-8 bytes of its argument on a path that writes it", w.file, p_["node"].lineno)
+            else:
+                res.add("C07-COUNT", w.qual, f"increment:{p_['size'][:40]}", f"size must grow by len({sparam}.encode('utf-8')); on a path that writes, the counter is `{p_['size']}` (S0 = counter before, N = UTF-8 length)", w.file, p_["node"].lineno)
+        elif "!(N+S0>L)" not in p_["conds"]:
+            res.add("C07-COUNT", w.qual, "write-before-check", f"super().write is reachable without `size > limit` having been tested on the counted size (path conditions: {sorted(p_['conds'])})", w.file, p_["node"].lineno)
+    if writes and not counted_somewhere and not any(f_.rule == "C07-COUNT" for f_ in res.findings):
+        res.add("C07-COUNT", w.qual, "no-utf8-increment", "LimitedStringIO.write does not count the UTF-8 bytes of its argument", w.file, w.line)
 
     # ---- C07-BUFFER ------------------------------------------------------------
     n_ctor = 0
